@@ -29,7 +29,7 @@ def showRun (ops : List Op) (r : List Bytes × Option Panic) : String :=
     | some _ => ["panic"]
   "|".intercalate ("ok" :: outs ++ tail)
 
-/-- `hist key=<hex> nonce=<hex> ops=x:70,s:5,x:64 src=<hex>`  → `ok|<hex>|ok|<hex>` / `…|panic` / `err`
+/-- `hist [m=4] key=<hex> nonce=<hex> ops=x:70,s:5,x:64 src=<hex>`  → `ok|<hex>|ok|<hex>` / `…|panic` / `err`
     `hchacha key=<hex> nonce=<hex>`                           → `<hex>` / `err` -/
 def handle (line : String) : String :=
   let o := parseOp line
@@ -40,9 +40,14 @@ def handle (line : String) : String :=
       match parseOps toks src with
       | none => "bad-op"
       | some ops =>
-        match newCipher 1 key nonce with
+        -- `m=<blocksPerBuf>` (default 1 = amd64/purego): the model of the bufSize = 64·m ports; by theorem
+        -- `buffer_size_irrelevant` every m gives the same observable, so m = 4 lines are compared with the
+        -- (m = 1) real code too
+        let m := (o.nat? "m").getD 1
+        if m = 0 || m > 8 then "bad-op" else
+        match newCipher m key nonce with
         | none => "err"
-        | some c => showRun ops (run 1 c ops)
+        | some c => showRun ops (run m c ops)
     | _, _, _, _ => "bad-op"
   else if o.cmd == "hchacha" then
     match o.hex? "key", o.hex? "nonce" with
